@@ -187,6 +187,60 @@ Proof.
   - discriminate.
 Qed.
 
+(* what gldap itself puts on the wire of a connection: [sent] counts LDAPMessages.
+   The read loop writes nothing except the notice when Stop has cancelled the
+   server and what an inline (StartTLS / Unbind) handler writes; per-request
+   goroutines write exactly what their handler's script writes. *)
+Theorem c10_loop_writes cfg s c c' e : conn_step cfg s c = Some (c', e) ->
+  sent c' = sent c \/
+  (pc c = CLoopTop /\ cancelled s = true /\ sent c' = S (sent c)) \/
+  (exists k rest, pc c = CInline k (HWrite :: rest) /\ sent c' = S (sent c)).
+Proof.
+  unfold conn_step. intros H.
+  destruct (pc c) as [| | |k sc|todo|] eqn:Epc.
+  - inversion H; subst; left; reflexivity.
+  - destruct (cancelled s) eqn:Ec.
+    + destruct (can_write c); [|discriminate]. inversion H; subst. cbn [sent set_pc andb].
+      destruct (delivered c); [right; left; repeat split; lia|left; lia].
+    + inversion H; subst. cbn [sent set_pc andb]. left. lia.
+  - destruct (input c) as [|it rest]; [destruct (eof c || interrupted c); [|discriminate]; inversion H; subst; left; reflexivity|].
+    destruct it as [k sc| |]; [destruct k; [| |destruct (has_unbind_route cfg)]|..]; inversion H; subst; left; reflexivity.
+  - destruct sc as [|h rest]; [destruct k; inversion H; subst; left; reflexivity|].
+    destruct (negb (hstep_enabled s c h)); [discriminate|].
+    destruct h; [|destruct (recovery cfg)|..]; inversion H; subst; cbn [sent set_pc frame_of]; try (left; lia).
+    destruct (delivered c); [right; right; exists k, rest; split; [reflexivity|lia]|left; lia].
+  - destruct todo as [|t rest]; [inversion H; subst; left; reflexivity|].
+    destruct t; [|destruct (inflight c =? 0); [|discriminate]| |destruct (negb (has_onclose cfg)); [|destruct (onclose_held s); [discriminate|]]|];
+      inversion H; subst; left; reflexivity.
+  - discriminate.
+Qed.
+
+(* reading an Unbind puts nothing on the wire, and neither does anything after it
+   except the Unbind handler's own script (when a route for it is registered) *)
+Theorem c10_no_response_to_unbind cfg s c c' e sc rest : pc c = CRead -> input c = IReq KUnbind sc :: rest ->
+  conn_step cfg s c = Some (c', e) -> sent c' = sent c.
+Proof.
+  intros Hpc Hin H. unfold conn_step in H. rewrite Hpc, Hin in H.
+  destruct (has_unbind_route cfg); inversion H; subst; reflexivity.
+Qed.
+
+Theorem c10_teardown_is_silent cfg s c c' e todo : pc c = CTeardown todo ->
+  conn_step cfg s c = Some (c', e) -> sent c' = sent c.
+Proof.
+  intros Hpc H. destruct (c10_loop_writes cfg s c c' e H) as [E|[(E & _)|(k & r & E & _)]]; [exact E|congruence|congruence].
+Qed.
+
+Theorem c06_handler_writes cfg s c r c' e : handler_step cfg s c r = Some (c', e) ->
+  sent c' = sent c \/ (delivered c = true /\ sent c' = S (sent c) /\
+                       exists rest others, take_handler r (hs c) = Some (HWrite :: rest, others)).
+Proof.
+  unfold handler_step. intros H. destruct (take_handler r (hs c)) as [[sc others]|] eqn:Et; [|discriminate].
+  destruct sc as [|h rest]; [inversion H; subst; left; reflexivity|].
+  destruct (negb (hstep_enabled s c h)); [discriminate|].
+  destruct h; [|destruct (recovery cfg && handler_rec cfg)|..]; inversion H; subst; cbn [sent frame_of]; try (left; lia).
+  destruct (delivered c); [right; split; [reflexivity|]; split; [lia|]; exists rest, others; reflexivity|left; lia].
+Qed.
+
 (* ---------------------------------------------------------------- *)
 (* C13                                                                *)
 
